@@ -289,6 +289,18 @@ func (g *Gen) genC11(n int) error {
 			g.emit("merge %s segs=%s drops=%s", g.fresh("pf"), seg, g.randDrops(nd))
 			g.emit("endpar")
 			g.emit("poolprobe")
+			// private doc-value visit states, reused with a growing field list, by goroutines
+			// running in step
+			if fl := sortedFieldNames(u.Fields); len(fl) > 0 && nd > 0 {
+				g.emit("par %d ordered=1", 4+g.r.Intn(5))
+				stn := g.fresh("st")
+				g.emit("q dv %s %s fields=%s doc=%d", seg, stn, strList(fl[:1]), 0)
+				g.emit("q dv %s %s fields=%s doc=%d", seg, stn, strList(fl[:1]), nd-1)
+				for v := 0; v < 6; v++ {
+					g.emit("q dv %s %s fields=%s doc=%d", seg, stn, strList(fl[:1+g.r.Intn(len(fl))]), g.r.Intn(nd))
+				}
+				g.emit("endpar")
+			}
 		}
 		g.emit("close %s", o)
 		g.st("case")
